@@ -25,6 +25,7 @@ CONSTANTS
   Blank,      \* TRUE: empty lines allowed
   Suffix,     \* text appended to every code line (e.g. a multi-byte character), <<>> for none
   FlagVal,    \* spelling appended to the flag attributes skip / unwrap-block: <<>> (bare) or e.g. ='1' (valued flag)
+  EqPad,      \* <<blanks before '=', blanks behind '='>> in name='..' / to='..' (sequences of characters, <<>> for none)
   ExtraAttr,  \* text appended to the attributes of every opening tag, <<>> for none: an attribute that must mean nothing,
               \* e.g. " skipper", " Skip", " xunwrap-block", " names='a'"
   TagPad,     \* characters between the tag body and the end delimiter (and behind the start delimiter of closing tags stays
@@ -135,19 +136,20 @@ TagName(kd) == IF kd[1] \in {"R", "P", "S", "SP", "NV", "NN", "XR"} \cup MKinds 
                ELSE IF kd[1] = "UX" THEN RM \o <<120>>            \* the registered name with a letter appended
                ELSE IF kd[1] = "UP" THEN SubSeq(RM, 1, Len(RM) - 1) \o <<45>>   \* its proper prefix plus a dash
                ELSE <<120, 120>>   \* xx
+EqS == EqPad[1] \o <<61>> \o EqPad[2]
 FlagAttrs(kd) ==
      (IF kd[1] \in {"S", "SP", "SF"} THEN <<32, 115, 107, 105, 112>> \o FlagVal ELSE <<>>)
   \o (IF kd[2] THEN <<32, 117, 110, 119, 114, 97, 112, 45, 98, 108, 111, 99, 107>> \o FlagVal ELSE <<>>)
 CondAttr(kd) ==
          IF kd[1] = "NV" THEN <<32, 110, 97, 109, 101>>                                                        \* bare name
          ELSE IF kd[1] = "NN" THEN <<>>                                                                        \* no name at all
-         ELSE IF kd[1] = "XR" THEN <<32, 116, 111, 61>> \o Q \o PastTo \o Q                                       \* marker tag, `to` only
-         ELSE IF kd[1] \in {"R", "S", "U", "UX", "UP", "XT"} THEN <<32, 110, 97, 109, 101, 61>> \o Q \o <<97>> \o Q                 \* name='a'
-         ELSE IF kd[1] \in {"P", "SP"} THEN <<32, 110, 97, 109, 101, 61>> \o Q \o <<98>> \o Q             \* name='b'
-         ELSE IF kd[1] = "T" THEN <<32, 116, 111, 61>> \o Q \o PastTo \o Q
-         ELSE IF kd[1] \in TKinds THEN <<32, 116, 111, 61>> \o Q \o Tos[KIdx(kd[1])] \o Q
-         ELSE IF kd[1] \in MKinds THEN <<32, 110, 97, 109, 101, 61>> \o Q \o Names[KIdx(kd[1])] \o Q
-         ELSE <<32, 116, 111, 61>> \o Q \o FutureTo \o Q
+         ELSE IF kd[1] = "XR" THEN <<32, 116, 111>> \o EqS \o Q \o PastTo \o Q                                       \* marker tag, `to` only
+         ELSE IF kd[1] \in {"R", "S", "U", "UX", "UP", "XT"} THEN <<32, 110, 97, 109, 101>> \o EqS \o Q \o <<97>> \o Q                 \* name='a'
+         ELSE IF kd[1] \in {"P", "SP"} THEN <<32, 110, 97, 109, 101>> \o EqS \o Q \o <<98>> \o Q             \* name='b'
+         ELSE IF kd[1] = "T" THEN <<32, 116, 111>> \o EqS \o Q \o PastTo \o Q
+         ELSE IF kd[1] \in TKinds THEN <<32, 116, 111>> \o EqS \o Q \o Tos[KIdx(kd[1])] \o Q
+         ELSE IF kd[1] \in MKinds THEN <<32, 110, 97, 109, 101>> \o EqS \o Q \o Names[KIdx(kd[1])] \o Q
+         ELSE <<32, 116, 111>> \o EqS \o Q \o FutureTo \o Q
 OpenTag(kd, n) ==
   DS \o TagName(kd)
      \o (IF FlagsFirst THEN FlagAttrs(kd) \o CondAttr(kd) ELSE CondAttr(kd) \o FlagAttrs(kd))
